@@ -57,6 +57,7 @@ inductive Stmt where
   | bn (ms n : Nat)
   | kill (sig : String) (k : Nat)
   | tw (sig : String) (n : Nat)
+  | tk (gap : Bool) (sig : String) (ms n : Nat)
   | ti
   | gj (k : Nat)
   | wx
@@ -334,6 +335,20 @@ def St.stmt (st : St) : Stmt → St
     -- the helper job; the `wait` for it is interrupted by the trapped signal: trap action first, then 384+sig
     let st1 := st.wake.newJob n 0
     { st1 with status := sigNo sig + 384, out := s!"o:trap{sig.toLower}" :: st1.out, fresh := [] }
+  | .tk gap sig _ n =>
+    -- the shell traps `sig`, forks a napping job and sends it `sig` (at once, or after a foreground
+    -- command): whether the signal is delivered by `kill` or, pending, by the child's entry step when it
+    -- unblocks, the child ends `signaled sig` and the parent is told — unless the child ignores it
+    let st0 := if gap then (st.wake.subshell 0) else st
+    let st0 := if gap then { st0 with fresh := [] } else st0
+    let st1 := st0.newJob n 2
+    let pid := (st1.jobs.getLast?.map (·.2.1)).getD 0
+    let st2 := if st.useSys then
+        { st1 with asleep := st1.asleep ++ [(pid, .exited n)],
+                   sys := { st1.sys with children := st1.sys.children.set pid { state := .halted (.exited n) } } }
+      else st1
+    if (sig == "INT" || sig == "QUIT") && !st.monitor then { st2 with fresh := st2.fresh ++ [pid], status := 0 }
+    else { st2.killJob pid (sigNo sig) with status := 0 }
   | .ti => { st with status := 0 }
   | .gj _ => { st with status := if st.useSys then waitStatus .echild else Spec.wait none }
   | .wx => { st with status := 2 }
